@@ -288,10 +288,43 @@ func (c *Ctx) checkSnapshotReads(rule string) {
 		op := atomicOpOf(call)
 		return op != nil && op.Field == f && op.Kind == "load"
 	}
+	// selfCall looks through `return recv.other()` (a same-receiver accessor such as value()): the
+	// returned expression and the no-write rule are then decided on that accessor as well.
+	selfCall := func(fn *ssa.Function) (ssa.Value, []*ssa.Function) {
+		fns := []*ssa.Function{fn}
+		for depth := 0; depth < 3; depth++ {
+			cur := fns[len(fns)-1]
+			rets := returnsOf(cur)
+			if len(rets) != 1 || len(rets[0].Results) != 1 {
+				return nil, fns
+			}
+			v := rets[0].Results[0]
+			if call, isC := stripConv(v).(*ssa.Call); isC {
+				if f := staticCallee(call); f != nil && c.inModule(f) && f.Blocks != nil && f.Signature.Recv() != nil &&
+					len(cur.Params) > 0 && len(call.Call.Args) == 1 && canon(call.Call.Args[0]) == ssa.Value(cur.Params[0]) {
+					fns = append(fns, f)
+					continue
+				}
+			}
+			return v, fns
+		}
+		return nil, fns
+	}
+	noWrites := func(fns []*ssa.Function) bool {
+		ok := true
+		for _, f := range fns {
+			instrsOf(f, func(in ssa.Instruction) {
+				if op := atomicOpOf(in); op != nil && op.Kind != "load" {
+					ok = false
+				}
+			})
+		}
+		return ok
+	}
 	if fn := c.fn("", "counter", "snapshot"); fn != nil {
 		ok := false
-		if rets := returnsOf(fn); len(rets) == 1 {
-			if bo, isB := rets[0].Results[0].(*ssa.BinOp); isB && bo.Op == token.SUB && isLoadOf(bo.X, fCurr) && isLoadOf(bo.Y, fPrev) {
+		if v, fns := selfCall(fn); v != nil && noWrites(fns) {
+			if bo, isB := v.(*ssa.BinOp); isB && bo.Op == token.SUB && isLoadOf(bo.X, fCurr) && isLoadOf(bo.Y, fPrev) {
 				ok = true
 			}
 		}
@@ -308,16 +341,11 @@ func (c *Ctx) checkSnapshotReads(rule string) {
 	fG := c.field("", "gauge", "curr")
 	if fn := c.fn("", "gauge", "snapshot"); fn != nil {
 		ok := false
-		if rets := returnsOf(fn); len(rets) == 1 {
-			if call, isC := isCallTo(rets[0].Results[0], "math", "Float64frombits"); isC && isLoadOf(call.Call.Args[0], fG) {
+		if v, fns := selfCall(fn); v != nil && noWrites(fns) {
+			if call, isC := isCallTo(v, "math", "Float64frombits"); isC && isLoadOf(call.Call.Args[0], fG) {
 				ok = true
 			}
 		}
-		instrsOf(fn, func(in ssa.Instruction) {
-			if op := atomicOpOf(in); op != nil && op.Kind != "load" {
-				ok = false
-			}
-		})
 		c.check(ok, rule, c.fnKey(fn), fn.Pos(), "gauge snapshot = Float64frombits(Load(curr)), no write", "the gauge snapshot is not Float64frombits(Load(curr)) (or it consumes the updated flag)")
 	} else {
 		c.missing(rule, "tally.gauge.snapshot")
